@@ -29,18 +29,55 @@ def load_unit(name):
     return u
 
 
+def _closure_body_rewrite(text, pat, repl, tail_pat):
+    """Rule C1b: `pat` matches a call up to and including the head of its LAST argument, a closure (`recv.f(&mut |x| `); the
+    closure's body is whatever follows up to the parenthesis that closes the call -- taken over verbatim as `\\B` in `repl`
+    (so a body of any shape and depth is followed); `tail_pat`, if given, is adapter text after the call that `repl` absorbs."""
+    n = 0
+    for m in reversed(list(re.finditer(pat, text, flags=re.S))):
+        masked = rsitems.mask(text)
+        # the call's opening parenthesis: the last one inside the match that is still open at its end
+        depth, opener = 0, None
+        stack = []
+        for k in range(m.start(), m.end()):
+            if masked[k] == "(":
+                stack.append(k)
+            elif masked[k] == ")" and stack:
+                stack.pop()
+        if not stack:
+            continue
+        opener = stack[-1]
+        close = rsitems.match_brace(masked, opener)
+        body = text[m.end():close].strip()
+        if body.endswith(","):
+            body = body[:-1].rstrip()
+        end = close + 1
+        if tail_pat:
+            tm = re.match(tail_pat, text[end:], flags=re.S)
+            if not tm:
+                continue
+            end += tm.end()
+        new = m.expand(repl).replace("\\B", body)
+        text = text[:m.start()] + new + text[end:]
+        n += 1
+    return text, n
+
+
 def _apply_rewrites(text, rewrites, log, where):
     for rw in rewrites:
         rule, pat, repl = rw[0], rw[1], rw[2]
         min_count = rw[3] if len(rw) > 3 else 1
         flags = re.S if (len(rw) > 4 and rw[4] == "S") else 0
-        new, n = re.subn(pat, repl, text, flags=flags)
+        if rule == "C1b":
+            new, n = _closure_body_rewrite(text, pat, repl, rw[4] if len(rw) > 4 else None)
+        else:
+            new, n = re.subn(pat, repl, text, flags=flags)
         if n < min_count:
             raise Unsupported("rule %s: pattern /%s/ matched %d times in %s (expected >= %d) -- anchor lost"
                               % (rule, pat, n, where, min_count))
         if n:
             log.append({"rule": rule, "site": where, "pattern": pat, "replacement": repl, "count": n})
-        elif rule in ("C1", "X3s", "X13", "X12"):
+        elif rule in ("C1", "C1b", "X3s", "X13", "X12"):
             # an OPTIONAL contract-carrying rewrite found nothing to attach to: like a lost ghost-hint anchor (rule A0), the
             # function is verified without it; a failure then counts as a violation only if a failing input is found
             log.append({"rule": "A0", "site": where, "pattern": pat, "replacement": "(optional rewrite %s matched nothing)" % rule,
